@@ -424,6 +424,27 @@ def relabel(g, rng, mode):
             if s not in seen:
                 seen.add(s)
                 new.append(s)
+    elif mode == "collide":
+        # names that are distinct as strings but equal (or ordered differently)
+        # under a plausible normalisation: case folding, stripping, numeric
+        # value, natural order, unicode compatibility forms
+        families = [
+            ["Exit", "exit", "EXIT", "eXit"],
+            ["L", "l"], ["A", "a", "B", "b"],
+            ["loop", "Loop", "LOOP"],
+            ["1", "01", "001", "1 "], ["b2", "b10", "b02", "b1"],
+            ["x", "x ", " x", "x\t"],
+            ["stra\u00dfe", "strasse", "STRASSE"],
+            ["\ufb01n", "fin"], ["e\u0301", "\u00e9"],
+            ["n_1", "n-1", "n.1", "n1"],
+            ["", " "],
+        ]
+        fam = [x for f in rng.sample(families, rng.randint(1, 3)) for x in f]
+        rng.shuffle(fam)
+        new = [f"q{i}" for i in range(len(names))]
+        k = rng.randint(2, max(2, min(len(fam), len(names))))
+        for pos, nm in zip(rng.sample(range(len(names)), min(k, len(names))), fam):
+            new[pos] = nm
     elif mode == "namespace":
         pool = _NS_NAMES[:]
         c = rng.random()
